@@ -391,6 +391,8 @@ func c16Arguments(c *Ctx, lists map[string]*c16List) {
 		}
 		if create == nil || dls == nil || dls.IsUnknown() {
 			c.Run.Unknown(rKey, name+"/join-accept-literal", c.Prog.Rel(L.tl.Pos), "a task that builds the JoinAcceptPayload literal and the key envelopes", "not found")
+			// the chain of custody does not depend on how the answer is built
+			c16Chain(c, rChain, name, L)
 			continue
 		}
 		optNegWant := dls.Field("OptNeg")
